@@ -126,9 +126,29 @@ fn check_pair(ctx: &Ctx, lang: &str, language: &tree_sitter::Language, qsrc: &st
     let used_m = env.matches(&mut used, q);
     let used_c = env.captures(&mut used, q);
     res.transitions += 5;
-    if strip_ids(&again_m) != strip_ids(&base_m) || triples_of_caps(&again_c) != triples_of_caps(&base_c) { v(res, "re-exec-differs", "second execution on the same cursor differs".into(), json!({})); }
+    // "identical results": the same sequences, not only the same sets
+    let seq = |cs: &[CapRec]| -> Vec<(usize, u32, usize)> { cs.iter().map(|c| (c.pattern, c.cap, c.node)).collect() };
+    if strip_ids(&again_m) != strip_ids(&base_m) || seq(&again_c) != seq(&base_c) { v(res, "re-exec-differs", format!("second execution on the same cursor differs: captures {:?} vs {:?}", seq(&again_c), seq(&base_c)), json!({})); }
     if strip_ids(&fresh_m) != strip_ids(&base_m) { v(res, "fresh-cursor-differs", "a fresh cursor gives different matches".into(), json!({})); }
-    if strip_ids(&used_m) != strip_ids(&base_m) || triples_of_caps(&used_c) != triples_of_caps(&base_c) { v(res, "reused-cursor-differs", "a cursor previously used with another query and range gives different results".into(), json!({})); }
+    if strip_ids(&used_m) != strip_ids(&base_m) || seq(&used_c) != seq(&base_c) { v(res, "reused-cursor-differs", format!("a cursor previously used with another query and range gives different results: captures {:?} vs {:?}", seq(&used_c), seq(&base_c)), json!({})); }
+    // reuse histories with an ABANDONED iteration: take the first k items of one stream, drop the iterator, execute again
+    for k in 1..=3usize {
+        for first_is_captures in [true, false] {
+            let mut c = QueryCursor::new();
+            if first_is_captures {
+                let mut it = c.captures(q, env.tree.root_node(), env.text);
+                for _ in 0..k { if it.next().is_none() { break; } }
+            } else {
+                let mut it = c.matches(q, env.tree.root_node(), env.text);
+                for _ in 0..k { if it.next().is_none() { break; } }
+            }
+            let m2 = env.matches(&mut c, q);
+            let c2 = env.captures(&mut c, q);
+            res.transitions += 3;
+            if strip_ids(&m2) != strip_ids(&base_m) { v(res, "re-exec-after-abandoned-iteration-differs", format!("after taking {} {} and dropping the iterator, the matches differ: {:?} vs {:?}", k, if first_is_captures { "captures" } else { "matches" }, strip_ids(&m2), strip_ids(&base_m)), json!({"abandoned_after": k})); break; }
+            if seq(&c2) != seq(&base_c) { v(res, "re-exec-after-abandoned-iteration-differs", format!("after taking {} {} and dropping the iterator, the captures differ: {:?} vs {:?}", k, if first_is_captures { "captures" } else { "matches" }, seq(&c2), seq(&base_c)), json!({"abandoned_after": k})); break; }
+        }
+    }
     // max start depth
     let depth_of_root = |m: &MatchRec| -> Option<u32> { m.caps.iter().map(|c| env.xt.nodes[c.1].depth).min() };
 
